@@ -274,7 +274,11 @@ jose_io_t *
 jose_jwe_enc_cek_io(jose_cfg_t *cfg, json_t *jwe, const json_t *cek,
                     jose_io_t *next)
 {
+    const jose_hook_alg_t *comp = NULL;
     const jose_hook_alg_t *alg = NULL;
+    jose_io_auto_t *enc = NULL;
+    json_auto_t *prt = NULL;
+    const char *hzip = NULL;
     const char *h = NULL;
     const char *k = NULL;
 
@@ -330,7 +334,19 @@ jose_jwe_enc_cek_io(jose_cfg_t *cfg, json_t *jwe, const json_t *cek,
     if (!encode_protected(jwe))
         return NULL;
 
-    return alg->encr.enc(alg, cfg, jwe, cek, next);
+    prt = jose_b64_dec_load(json_object_get(jwe, "protected"));
+    (void) json_unpack(prt, "{s:s}", "zip", &hzip);
+
+    enc = alg->encr.enc(alg, cfg, jwe, cek, next);
+    if (!enc || !hzip)
+        return jose_io_incref(enc);
+
+    /* Compress the whole plaintext as one stream in front of the encryptor. */
+    comp = jose_hook_alg_find(JOSE_HOOK_ALG_KIND_COMP, hzip);
+    if (!comp)
+        return NULL;
+
+    return comp->comp.def(comp, cfg, enc);
 }
 
 void *
